@@ -127,6 +127,27 @@ func TestC14aErrorClasses(t *testing.T) {
 		slotsBefore := mqtt.VerifUnorderedSlots(h.Client)
 		savesBefore := h.Store.NOps()
 
+		// an earlier persisted publish of the same level was refused (its Save
+		// failed): that is over and done with, the next one is an ordinary publish
+		priorRefused := false
+		if state == "online" && persisted && placement == "none" && rapid.IntRange(0, 2).Draw(rt, "priorRefusedPublish") == 0 {
+			h.Store.FailNext('S')
+			var perr error
+			if strings.HasPrefix(method, "PublishAtLeastOnce") {
+				_, perr = h.Client.PublishAtLeastOnce([]byte("refused"), "prior/refused")
+			} else {
+				_, perr = h.Client.PublishExactlyOnce([]byte("refused"), "prior/refused")
+			}
+			h.Store.ClearFaults()
+			if perr == nil {
+				h.Failf("a persisted publish whose Save failed returned nil")
+			}
+			h.Act("an earlier publish of the level was refused: %v", perr)
+			priorRefused = true
+			q1Before, q2Before = mqtt.VerifQueueLen(h.Client)
+			savesBefore = h.Store.NOps()
+		}
+
 		// --- the call ---
 		var quit chan struct{}
 		if quitKind != "nil" {
@@ -360,6 +381,18 @@ func TestC14aErrorClasses(t *testing.T) {
 				if bytes.Contains(cn.OutCopy(), []byte(marker)) {
 					h.Failf("%s returned %v, yet conn %d carries bytes of the message", method, err, cn.N)
 				}
+			}
+		}
+		// online, no fault: an accepted publish goes out; its exchange reports no submission error
+		if state == "online" && placement == "none" && persisted && err == nil && quitKind != "x" {
+			h.PollExchanges()
+			var errs []error
+			h.WithLock(func() { errs = append(errs, call.ExchErrs...) })
+			if len(errs) != 0 {
+				h.Failf("%s on a healthy connection (earlier publish refused: %t) was accepted, yet its exchange reports %v", method, priorRefused, errs)
+			}
+			if !bytes.Contains(h.AllConns()[len(h.AllConns())-1].OutCopy(), []byte(marker)) {
+				h.Failf("%s on a healthy connection (earlier publish refused: %t) was accepted, yet its packet is not on the wire", method, priorRefused)
 			}
 		}
 		// Backoff: nil exactly for the permanent classes
